@@ -104,6 +104,22 @@ def case_hash(inputs) -> str:
 
 # --------------------------------------------------------------------------- case context
 
+def as_int_container(arr):
+    """Integer-valued float64 data (photon counts, integer wavelengths, integer bounds, 0/1 masks) is handed over as an
+    int64 array in two out of three cases (chosen by a hash of the values, like the memory layout): the same numbers in
+    another dtype must give the same answer, and code that allocates its result `like` the input silently truncates."""
+    if not isinstance(arr, np.ndarray) or arr.dtype != np.float64 or arr.size > 200_000 or arr.size < 2:
+        return arr
+    if not (np.all(np.isfinite(arr)) and np.all(arr == np.round(arr)) and np.all(np.abs(arr) <= 2 ** 24)):
+        return arr
+    if not np.any(arr != 0):
+        return arr          # all-zero defaults (baseline, lower bounds) say nothing about dtype handling
+    import zlib
+    if (zlib.crc32(np.ascontiguousarray(arr).tobytes()[:4096]) + 7 * int(arr.size)) % 3 == 0:
+        return arr
+    return arr.astype(np.int64)
+
+
 class CaseAbort(Exception):
     """Raised to end a case early (after a violation / unmet / inconclusive was recorded)."""
 
@@ -230,20 +246,10 @@ class CaseCtx:
         return arr
 
     def _container(self, arr):
-        """Integer-valued float64 data (photon counts, integer wavelengths, 0/1 masks) is handed over as an int64 array in
-        two out of three cases (chosen by a hash of the values, like the layout): the same numbers in another dtype must
-        give the same answer, and code that allocates its result `like` the input silently truncates."""
-        if arr.dtype != np.float64 or arr.size > 200_000:
-            return arr
-        if not (np.all(np.isfinite(arr)) and np.all(arr == np.round(arr)) and np.all(np.abs(arr) <= 2 ** 24)):
-            return arr
-        if not np.any(arr != 0):
-            return arr          # all-zero defaults (baseline, lower bounds) say nothing about dtype handling
-        import zlib
-        if (zlib.crc32(np.ascontiguousarray(arr).tobytes()[:4096]) + 7 * int(arr.size)) % 3 == 0:
-            return arr
-        self.cells.add("dtype=int64")
-        return arr.astype(np.int64)
+        out = as_int_container(arr)
+        if out is not arr:
+            self.cells.add("dtype=int64")
+        return out
 
     # -- decoy calls: before the judged call the same function is called with inputs of the same shapes, dtypes, first and
     # last elements but different interior values (result discarded).  Properties hold for every history: an answer must
